@@ -40,6 +40,6 @@ def run(ctx):
         ctx, 'agreement-and-laws', 'vf.rtc.mc_rtc', 'check_laws_case', cases, chunk=2,
         rule='every total structure with <=2 states, %s 3-state and seeded random <=5-state structures x sampled formulas: A g over one temporal '
              'operator with propositional operands (incl. and/or nodes with three operands) through CTL, LTL, CTL* (object and text); CTL formulas through CTL and CTL*; LTL formulas through '
-             'LTL and CTL*; complement/intersection/union/implication laws, the five A/E dualities, and the expansion laws of EU, AU, AG, EG, EF, AF, ER '
+             'LTL and CTL*; ONE formula object handed to CTL*, CTL, CTL* (and LTL) in turn; complement/intersection/union/implication laws, the five A/E dualities, and the expansion laws of EU, AU, AG, EG, EF, AF, ER '
              'on pairs (f, g); needs no reference implementation; distinct by (kind, K, formula)' % ('600' if thorough else '60'))
     return deductive.level_for(ctx, 'C04'), CMD
